@@ -170,7 +170,7 @@ func c03Gen(rng *verifsim.RNG, idx int, tier string) *Plan {
 		s.RDNSS = append(s.RDNSS, rd)
 		if rng.Bool(0.3) {
 			// ... or the address listing itself fails for a while
-			p.Faults = append(p.Faults, Fault{Seam: "rtnl.addr", From: int64(rng.Dur(100*time.Millisecond, 3*time.Second)), Count: rng.Range(1, 3), Err: []string{"nl.EPERM", "nl.EINVAL", "opaque"}[rng.Intn(3)]})
+			p.Faults = append(p.Faults, Fault{Seam: "rtnl.addr", From: int64(rng.Dur(100*time.Millisecond, 3*time.Second)), Count: rng.Range(1, 3), Err: []string{"nl.EPERM", "nl.EINVAL", "opaque", "nl.ENODEV"}[rng.Intn(4)]})
 		}
 		iw.Addrs = []AddrW{{CIDR: iw.LL + "/64", Flags: 0x40}, {CIDR: "2001:db8:c::1/64", Flags: 0x40}, {CIDR: "2001:db8:d::1/64", Flags: 0x20}}
 		if rng.Bool(0.5) {
